@@ -40,6 +40,7 @@ type Result struct {
 	Violations     []Violation
 	Infra          []string // non-determinism / replay divergence: infrastructure errors, never violations
 	EventFired     int      // executions in which an environment event fired
+	Cut            int      // alternatives not taken because they would exceed the deviation bound (0 = every schedule was explored)
 	Elapsed        time.Duration
 }
 
@@ -76,6 +77,7 @@ func Explore(opt Options, cfg func(*Sched), main func(), check CheckFunc) *Resul
 		}
 		res.Execs, res.Transitions, res.States, res.StepsTotal = layer.Execs, layer.Transitions, layer.States, layer.StepsTotal
 		res.EventFired = layer.EventFired
+		res.Cut = layer.Cut
 		for k, v := range layer.Outcomes {
 			if layer.Complete || res.Outcomes[k] < v {
 				res.Outcomes[k] = v
@@ -162,6 +164,7 @@ func exploreBound(bound int, opt Options, cfg func(*Sched), main func(), check C
 			p := x.Points[i]
 			for alt := 1; alt < p.N; alt++ {
 				if used+cost(p, alt) > bound {
+					layer.Cut++
 					continue
 				}
 				if depth == 0 {
